@@ -14,6 +14,7 @@ using pbt::Op;
 static std::atomic<int> g_destroyed[64];  // destructor runs per object id
 constexpr unsigned STAMP = 0xA11CE5ED;
 
+struct Derived;
 struct Obj : RefCountedObject
 {
   unsigned stamp = STAMP;
@@ -21,16 +22,22 @@ struct Obj : RefCountedObject
   // objects own handles to other objects (list / tree nodes): destroying one releases its successor.  Held through a
   // pointer because IntrusivePtr<Obj> cannot be instantiated while Obj is incomplete (its static_assert on is_base_of).
   std::unique_ptr<IntrusivePtr<Obj>> nextp;
+  std::unique_ptr<IntrusivePtr<Derived>> dnextp;  // a handle to the DERIVED type owned by the object (instance->geometry)
   explicit Obj(int i);
   ~Obj() override;
   IntrusivePtr<Obj> &next();
+  IntrusivePtr<Derived> &dnext();
 };
 struct Derived : Obj
 {
   int extra = 7;
   explicit Derived(int i) : Obj(i) {}
 };
-Obj::Obj(int i) : id(i), nextp(new IntrusivePtr<Obj>()) {}
+Obj::Obj(int i) : id(i), nextp(new IntrusivePtr<Obj>()), dnextp(new IntrusivePtr<Derived>()) {}
+IntrusivePtr<Derived> &Obj::dnext()
+{
+  return *dnextp;
+}
 Obj::~Obj()
 {
   stamp = 0xDEAD;
@@ -64,6 +71,8 @@ enum
   H_POP_RAW,   // h = h->next().ptr   (walking / popping a chain: the handle's old object may die in this very assignment ...
   H_POP_COPY,  // h = h->next        ... and with it the handle `next` the right-hand side refers to)
   H_POP_MOVE,  // h = std::move(h->next())
+  O_LINK_D,       // obj->dnext() = derived object / null
+  H_POP_CONVERT,  // baseHandle = baseHandle->dnext()   (derived-to-base converting assignment from a handle the old object owns)
   NKINDS
 };
 
@@ -89,6 +98,7 @@ static void history_case(const std::vector<Op> &ops, pbt::Ctx &ctx)
   int expectedDestroyed[64] = {};
   bool overNonEmpty = false, handleCausedDestroy = false, popKilledOld = false;
   int link[3] = {-1, -1, -1};  // model: object slot that obj[o]->next points at (only to a HIGHER slot: no cycles)
+  int dlink[3] = {-1, -1, -1};  // same for obj[o]->dnext (target must be a Derived object)
 
   auto handles = [&](int o) {
     long long n = 0;
@@ -97,6 +107,9 @@ static void history_case(const std::vector<Op> &ops, pbt::Ctx &ctx)
         ++n;
     for (int i = 0; i < 3; ++i)
       if (obj[i].alive && link[i] == o)
+        ++n;
+    for (int i = 0; i < 3; ++i)
+      if (obj[i].alive && dlink[i] == o)
         ++n;
     return n;
   };
@@ -107,6 +120,7 @@ static void history_case(const std::vector<Op> &ops, pbt::Ctx &ctx)
         if (obj[o].alive && obj[o].creator + handles(o) == 0) {
           obj[o].alive = false;
           link[o] = -1;
+          dlink[o] = -1;
           expectedDestroyed[obj[o].id & 63]++;
           if (byHandleOp)
             handleCausedDestroy = true;
@@ -153,7 +167,7 @@ static void history_case(const std::vector<Op> &ops, pbt::Ctx &ctx)
       o = pickObj(o, false);
     else if (kind == O_INC || kind == O_DEC || kind == H_FROM_RAW || kind == H_ASSIGN_RAW)
       o = pickObj(o, true);
-    if (kind == H_POP_RAW || kind == H_POP_COPY || kind == H_POP_MOVE)
+    if (kind == H_POP_RAW || kind == H_POP_COPY || kind == H_POP_MOVE || kind == H_POP_CONVERT)
       h = pickHandle(h % 4, true, -1);
     if (kind == H_COPY || kind == H_MOVE)
       g = pickHandle(g, h < 4, h);
@@ -388,6 +402,31 @@ static void history_case(const std::vector<Op> &ops, pbt::Ctx &ctx)
       ctx.label("object-owns-handle");
       break;
     }
+    case O_LINK_D: {
+      int o1 = (int)(op.a % 2), o2 = o1 + 1 + (int)(op.b % (2 - o1));
+      if (!obj[o1].alive)
+        break;
+      bool toNull = !obj[o2].alive || !obj[o2].derived || op.c % 5 == 0;
+      if (toNull)
+        obj[o1].raw->dnext() = nullptr;
+      else
+        obj[o1].raw->dnext() = static_cast<Derived *>(obj[o2].raw);
+      dlink[o1] = toNull ? -1 : o2;
+      break;
+    }
+    case H_POP_CONVERT: {
+      if (!exists[h] || h >= 4 || target[h] < 0)
+        break;
+      int oOld = target[h], oNew = dlink[oOld];
+      bool oldDies = obj[oOld].creator + handles(oOld) == 1;
+      *hb[h] = std::as_const((*hb[h])->dnext());  // IntrusivePtr<Obj> = const IntrusivePtr<Derived> &
+      target[h] = oNew;
+      if (oldDies && oNew >= 0) {
+        popKilledOld = true;
+        ctx.label("pop through a derived handle: old head dies during the converting assignment");
+      }
+      break;
+    }
     case H_POP_RAW:
     case H_POP_COPY:
     case H_POP_MOVE: {
@@ -433,6 +472,7 @@ static void history_case(const std::vector<Op> &ops, pbt::Ctx &ctx)
         long long want = obj[i].creator + handles(i);
         PBT_ASSERT_MSG(obj[i].raw->useCount() == want, "useCount()=" << obj[i].raw->useCount() << " but creator refs + live handles = " << want << " (op kind " << kind << ")");
         PBT_ASSERT_MSG(obj[i].raw->next().ptr == (link[i] >= 0 ? obj[link[i]].raw : nullptr), "object " << obj[i].id << "'s own handle points at the wrong object (op kind " << kind << ")");
+        PBT_ASSERT_MSG(obj[i].raw->dnext().ptr == (dlink[i] >= 0 ? obj[dlink[i]].raw : nullptr), "object " << obj[i].id << "'s own derived handle points at the wrong object (op kind " << kind << ")");
       }
     for (int i = 0; i < nextId && i < 64; ++i)
       PBT_ASSERT_MSG(g_destroyed[i] == expectedDestroyed[i], "object " << i << " destroyed " << g_destroyed[i] << " times, model " << expectedDestroyed[i] << " (op kind " << kind << ")");
@@ -618,7 +658,7 @@ static void register_properties()
 {
   using namespace rc;
   auto ops = pbt::vec(pbt::genOpWeighted({{3, O_CREATE}, {1, O_INC}, {3, O_DEC}, {2, H_DESTROY}, {1, H_DEFAULT}, {4, H_FROM_RAW}, {3, H_COPY}, {3, H_MOVE},
-                                             {2, H_CONVERT}, {4, H_ASSIGN_COPY}, {3, H_ASSIGN_MOVE}, {3, H_ASSIGN_RAW}, {2, H_COMPARE}, {1, H_DEREF}, {4, O_HANDOVER}, {4, O_LINK}, {2, H_POP_RAW}, {2, H_POP_COPY}, {2, H_POP_MOVE}},
+                                             {2, H_CONVERT}, {4, H_ASSIGN_COPY}, {3, H_ASSIGN_MOVE}, {3, H_ASSIGN_RAW}, {2, H_COMPARE}, {1, H_DEREF}, {4, O_HANDOVER}, {4, O_LINK}, {2, H_POP_RAW}, {2, H_POP_COPY}, {2, H_POP_MOVE}, {3, O_LINK_D}, {2, H_POP_CONVERT}},
                           5, 11, 11),
       50);
   pbt::property<std::vector<Op>>("handle_history", 6000, ops, history_case);
